@@ -3,8 +3,10 @@
 package c01
 
 import (
+	"context"
 	"fmt"
 	kerrors "k8s.io/apimachinery/pkg/api/errors"
+	"k8s.io/apimachinery/pkg/apis/meta/v1/unstructured"
 	"testing"
 
 	"github.com/crossplane/crossplane/verifsim/kit"
@@ -41,6 +43,19 @@ func (prop) Run(t *testing.T, s *sim.Sim, res *runner.Result) {
 		// kind that rejects some applies
 		Params: xrworld.DrawParams{Strict: true},
 		Faults: []sim.Outcome{sim.ErrBefore, sim.ErrAfter, sim.Conflict, sim.CrashBefore, sim.CrashAfter, sim.Stale},
+		Env: func(w *xrworld.W, wl *xrworld.Workload) []sim.Action {
+			cs := w.ComposedObjects()
+			if len(cs) == 0 {
+				return nil
+			}
+			// a provider reports on a composed resource (its resource version moves)
+			return []sim.Action{{Key: "a provider updates the status of a composed resource", Weight: 4, Run: func() {
+				c := cs[s.Tape.Next(len(cs))]
+				u := c.Obj.DeepCopy()
+				_ = unstructured.SetNestedField(u.Object, fmt.Sprintf("p%d", s.Tape.Next(1000)), "status", "phase")
+				_ = w.Direct.Status().Update(context.Background(), u)
+			}}}
+		},
 		Observe: func(w *xrworld.W, wl *xrworld.Workload) {
 			observe(w)
 		},
